@@ -1,5 +1,7 @@
-"""Per-property configuration of the driver."""
-import re
+"""Per-property configuration of the driver: one file lib/cfg/Cxx.json per claimed property."""
+import json, glob, os, re
+
+HERE = os.path.dirname(os.path.abspath(__file__))
 
 TRUSTED_COMMON = [
     "Coq 8.16.1 kernel incl. its vm_compute machine (finite sweeps, correspondence evaluation); native_compute not used",
@@ -13,22 +15,43 @@ ASSUME_COMMON = [
     "specification transcribed by hand from the public LoRaWAN documents (no network access)",
 ]
 
-# name -> Coq element type of the exception lists in gen/KnownGen.v
-KNOWN_DECLS = {
-}
-
-PROPS = {
-    "C11": {
-        "cmd": "c11",
-        "trusted": ["models: theories/Ident/Model.v (netid.go, DevAddr part of fhdr.go, EUI64/AES128Key text/binary/sql methods), theories/Base/Hex.v (encoding/hex + strings.TrimPrefix re-specified)",
-                    "spec: theories/Ident/Spec.v (Backend Interfaces addressing table)"],
-        "assumptions": ["encoding/hex behaves as modelled in Base/Hex.v (compared on every text case)"],
-    },
-}
+PROPS = {}
+KNOWN_DECLS = {}   # name -> Coq element type of the exception lists in gen/KnownGen.v
+for f in sorted(glob.glob(os.path.join(HERE, "cfg", "C*.json"))):
+    pid = os.path.basename(f)[:-5]
+    c = json.load(open(f))
+    PROPS[pid] = c
+    KNOWN_DECLS.update(c.get("known_decls", {}))
 
 
 def parse_diag(pid, out):
-    """Lines 'DIAG <key> <what>' are not printable from Coq; diagnosis files print
-    lists which are decoded here per property."""
+    """A diagnosis file (cfg 'diag') prints, for each failing table cell, a line produced by
+    `Print`-ing definitions named DIAG_<tag>; the value is a list of keys as strings of
+    numbers. Format understood here:   DIAG_<tag> = [<item>; <item>; ...]  where an item is
+    any parenthesised tuple or number; the key becomes '<tag>:<item with spaces removed>'."""
     res = []
+    for m in re.finditer(r"(DIAG_\w+)\s*=\s*(.*?)\n\s*:\s*list", out, re.S):
+        tag = m.group(1)[5:]
+        body = " ".join(m.group(2).split())
+        if body.startswith("["):
+            body = body[1:]
+        if body.rstrip().endswith("]"):
+            body = body.rstrip()[:-1]
+        depth = 0
+        cur = ""
+        items = []
+        for ch in body:
+            if ch in "([":
+                depth += 1
+            if ch in ")]":
+                depth -= 1
+            if ch == ";" and depth == 0:
+                items.append(cur); cur = ""
+            else:
+                cur += ch
+        if cur.strip():
+            items.append(cur)
+        for it in items:
+            key = tag + ":" + re.sub(r"\s+|%\w+", "", it)
+            res.append((key, "table obligation '%s' fails for cell %s" % (tag, it.strip())))
     return res
